@@ -443,3 +443,5 @@ def add_fixed_joint(
     master.drives = slave
     slave.driven_by = master
     slave.master_gear_ratio = 1.0
+    if isinstance(slave, GearBase | WormGear):
+        slave.master_gear_efficiency = 1
